@@ -254,6 +254,11 @@ impl Read for SimReader {
             }
         }
         let k = k as usize;
+        if k == 0 {
+            // at or beyond the end of the medium (a seek may legally go there): end of file
+            self.log.u64(0);
+            return Ok(0);
+        }
         let p = self.pos as usize;
         buf[..k].copy_from_slice(&self.data[p..p + k]);
         self.pos += k as u64;
